@@ -15,7 +15,9 @@ RULE = ('cases: operation histories (3-16 ops) over add / add_all (batches of 0-
         'malformed stream 0-3, selection size 2-9, elite size 1-3, node size 1-3, exploration ratio e/64); individuals are '
         '(id, key, tag, weight) with few distinct keys so ties, near-duplicates and strictly better late arrivals are frequent. '
         'One case in eight instead runs the real evolution loop (EvolutionSimulator + Iterative + TelemetryHeuristicContext) over such a population, '
-        'seeded with 0-3 initial solutions (+ operator-created ones) and scripted offspring for 1-9 generations (oracle only). '
+        'seeded with 0-3 initial solutions (+ operator-created ones) and scripted offspring for 1-9 generations (oracle only); one case in forty is an '
+        'end-to-end vrp-core solve (6-14 jobs, integer matrix and costs) seeded through the pragmatic writer + initial-solution reader with a '
+        'solution of a longer unseeded run, 1-2 generations, Greedy / Elitism / default population (oracle only). '
         'non-trivial = history in which an offered individual was dropped (dedup / truncation / comparable-filter) or the phase changed, '
         'or an evolution of more than one generation.')
 TRUSTED = ['slice::sort_by is a stable sort (std documentation): modelled by stable insertion sort',
@@ -252,7 +254,7 @@ def gen_solve(rng):
     is an exactly represented integer), solved unseeded for gens0 generations, the solution written and read back through the
     pragmatic initial-solution reader and used to seed a short second solve"""
     import json as _json
-    n = rng.range(3, 7)
+    n = rng.range(6, 14)
     pts = [(rng.below(30), rng.below(30)) for _ in range(n + 1)]
     dist = [abs(a[0] - b[0]) + abs(a[1] - b[1]) for a in pts for b in pts]
     jobs = []
@@ -262,17 +264,17 @@ def gen_solve(rng):
             st = rng.below(200)
             place['times'] = [['2020-01-01T00:%02d:%02dZ' % (st // 60, st % 60), '2020-01-01T01:%02d:%02dZ' % (st // 60, st % 60)]]
         jobs.append({'id': 'j%d' % i, 'deliveries': [{'places': [place], 'demand': [rng.range(1, 3)]}]})
-    nveh = rng.range(1, 3)
+    nveh = rng.range(2, 4)
     problem = {'plan': {'jobs': jobs},
                'fleet': {'vehicles': [{'typeId': 'v', 'vehicleIds': ['v_%d' % (k + 1) for k in range(nveh)], 'profile': {'matrix': 'car'},
                                        'costs': {'fixed': rng.choice([0, 10, 50]), 'distance': 1, 'time': rng.choice([0, 1])},
                                        'shifts': [{'start': {'earliest': '2020-01-01T00:00:00Z', 'location': {'index': 0}},
                                                    'end': {'latest': '2020-01-01T08:00:00Z', 'location': {'index': 0}}}],
-                                       'capacity': [rng.range(3, 8)]}],
+                                       'capacity': [rng.range(5, 12)]}],
                          'profiles': [{'name': 'car'}]}}
     matrix = {'profile': 'car', 'travelTimes': dist, 'distances': dist}
-    return {'kind': 'solve', 'problem': _json.dumps(problem), 'matrix': _json.dumps(matrix), 'gens0': rng.range(5, 40),
-            'gens': rng.range(1, 3), 'init_size': rng.choice([1, 1, 2, 4]), 'pop': rng.choice(['greedy', 'elitism', 'default', 'default']),
+    return {'kind': 'solve', 'problem': _json.dumps(problem), 'matrix': _json.dumps(matrix), 'gens0': rng.range(40, 120),
+            'gens': rng.range(1, 2), 'init_size': rng.choice([1, 1, 1, 2, 4]), 'pop': rng.choice(['greedy', 'elitism', 'default', 'default']),
             'sel': rng.choice([1, 2, 4]), 'ops': []}
 
 
@@ -288,7 +290,12 @@ def gen_evo(rng, u, kind, cfg, two):
     max_init = max(1, rng.choice([n_init, n_init, n_init + 1, n_init + 2, max(n_init - 1, 1)]))
     created = [u.ind() for _ in range(max(0, max_init - n_init))]
     gens = rng.range(1, 9)
-    best = min([x[1] for x in inits + created])
+    seeds = inits[:max_init] + created
+    if len(seeds) >= 2 and rng.chance(1, 2):
+        # a later seed is the strictly best one
+        j = rng.range(1, len(seeds) - 1)
+        seeds[j][1] = min(x[1] for x in seeds) - rng.range(1, 3)
+    best = min([x[1] for x in seeds])
     offspring = []
     for g in range(gens + 2):
         k = rng.choice([0, 1, 2, 2, 3, 4])
@@ -296,7 +303,7 @@ def gen_evo(rng, u, kind, cfg, two):
         xs = []
         for _ in range(k):
             x = u.ind(best if rng.chance(1, 6) else None)
-            if rng.chance(2, 3) and x[1] <= best:
+            if rng.chance(3, 4) and x[1] <= best:
                 x[1] = best + rng.range(1, 4)
             xs.append(x)
         offspring.append(xs)
@@ -611,5 +618,5 @@ MANIFEST_TEXT = ('Machine-checked proof (Coq, no axioms) over an executable mode
 MANIFEST_NOTE = ('Trusted: Coq kernel + vm_compute; harness, generators, comparison; std semantics of sort_by (stable), dedup_by, truncate. '
                  'Only validated, not proved: what the GSOM network returns during Exploration selections (checked to be offered individuals), '
                  'f64 arithmetic of the dedup distances and ratio rules on the dyadic/integer data used, deep_copy/on_init preserving individuals. '
-                 'Not covered: vrp-core Solver / pragmatic initial_reader end-to-end (the loop is modelled at the rosomaxa level only).')
+                 'vrp-core Solver + pragmatic initial_reader are exercised end to end (seeded solve no worse than the given solution) but not modelled.')
 MANIFEST_TECHNIQUE = 'Coq proof over executable model + vm_compute differential correspondence with the Rust implementation'
